@@ -1195,6 +1195,7 @@ def run(repo: Repo, R: Report) -> None:
 
     # ------------------------------------------------------------------ D6
     r_sl = R.rule("C01-D6-slicers", "generated slicing processors iterate their input directly, call the wrapped processor once per element with the same extra arguments, and append results in that order", 2)
+    r_fresh = R.rule("C01-D20-slicers-build-a-fresh-result", "a generated slicing processor collects the element results in a collection it creates itself (not the collection it was given, a copy that shares its storage, or an object kept on the processor), never mutates its input, and returns that collection: the input collection may still be referenced by the context (an identity-preserving probe stored it under its key) or by the caller", 2)
     create = repo.func(SLICE, "_SlicingDataProcessorFactory.create")
     procs = [n for n in ast.walk(create) if isinstance(n, FuncNode) and n.name == "process"]
     if len(procs) != 2:
@@ -1234,6 +1235,7 @@ def run(repo: Repo, R: Report) -> None:
             sc0 = mapped_call(cp, _traversal(gen, data_p, set())) if len(cp.generators) == 1 and not gen.ifs and not gen.is_async else None
             ok = sc0 is not None and isinstance(cp, (ast.ListComp, ast.GeneratorExp)) and cp.elt is sc0
         R.check(ok, r_sl, SLICE, qualname_of(p), "for item in data: out.append(super().process(item, *args, **kwargs))", "a slicer does not map the wrapped processor over the elements in order with the resolved parameters", p.lineno)
+        _slicer_result_is_fresh(R, r_fresh, p, data_p, loops[0] if ok and loops else None, apps[0] if ok and loops else None, comps[0] if ok and comps else None, shape_known=ok)
 
     # ------------------------------------------------------------------ D7
     r_sh = R.rule("C01-D7-shorthand-table", "each registered shorthand prefix is handled by the resolver whose pattern starts with that prefix, and the pattern's groups feed the matching factory arguments in order", 4)
@@ -1324,6 +1326,8 @@ def run(repo: Repo, R: Report) -> None:
     _rule_log_ranges(repo, R)
     _rule_entry_points_pass_names(repo, R, nmod)
     _rule_wrappers_forward_advertised(repo, R)
+    _rule_payload_source_adapter(repo, R)
+    _rule_write_then_delete(repo, R)
 
 
 # ---------------------------------------------------------------------- D9
@@ -2761,3 +2765,326 @@ def _rule_wrappers_forward_advertised(repo: Repo, R: Report) -> None:
                         sel = ", ".join(sorted(fwd)) or "nothing"
                         what = f"the wrapper advertises the names in `{m}` (taken from the signature of `{'/'.join(sorted(elem_names))}`) as processing parameters, so the node resolves them with config > context > default, but the mapping spread into `{norm(c)[:50]}` is selected from {{{sel}}} only: a value the node configuration or the context supplies for such a parameter is dropped and the wrapped element runs with its own default"
                     R.check(not missing, r, rel, lqn, f"{norm(c)[:60]}: advertised {{{', '.join(sorted(adv))}}} / forwarded {{{', '.join(sorted(fwd))}}}", what, c.lineno)
+
+
+# ---------------------------------------------------------------------- D18 / D19 (round 6)
+_WRITE_SINKS = {"update", "set_value", "set_item_value", "update_context"}
+_DELETE_SINKS = {"delete", "delete_value", "delete_item_value", "delete_context"}
+
+
+def _notifier_names(repo: Repo) -> Tuple[Set[str], Set[str]]:
+    """(writers, deleters): the processor-side methods through which a processor asks for a context write / delete,
+    found by role - methods (any name) of the processor base modules whose body hands their own key parameter to the
+    observer's update / delete or to the context mapping's set_value / delete_value."""
+    writers: Set[str] = set()
+    deleters: Set[str] = set()
+    for rel in (CPROC, DPROC):
+        if not repo.has_module(rel):
+            continue
+        for F in [n for n in ast.walk(repo.module(rel).tree) if isinstance(n, FuncNode) and isinstance(parent(n), ast.ClassDef)]:
+            ps = [a.arg for a in F.args.args]
+            if len(ps) < 2:
+                continue
+            key_p = ps[1]
+            if any(isinstance(x, ast.Name) and x.id == key_p and isinstance(x.ctx, (ast.Store, ast.Del)) for x in walk_no_nested(F)):
+                continue
+            for c in calls_in(F):
+                if not isinstance(c.func, ast.Attribute) or isinstance(c.func.value, ast.Call):
+                    continue
+                args = list(c.args) + [k.value for k in c.keywords if k.arg is not None]
+                if not any(isinstance(a, ast.Name) and a.id == key_p for a in args[:2]):
+                    continue
+                if c.func.attr in _WRITE_SINKS and len(ps) >= 3:
+                    writers.add(F.name)
+                elif c.func.attr in _DELETE_SINKS and len(ps) == 2:
+                    deleters.add(F.name)
+    return writers or {"_notify_context_update"}, deleters or {"_notify_context_deletion"}
+
+
+def _self_call(c: ast.Call, recv: str, names: Set[str]) -> bool:
+    return isinstance(c.func, ast.Attribute) and c.func.attr in names and isinstance(c.func.value, ast.Name) and c.func.value.id == recv
+
+
+def _normal_nested(repo: Repo, rel: str, fn: ast.AST) -> ast.AST:
+    """Normal form of a generated (nested) function: module-level private helpers absorbed; the raw body when the
+    normaliser cannot handle it."""
+    try:
+        from ..normal import normalize
+        return normalize(repo, repo.module(rel), fn)
+    except Exception:
+        return fn
+
+
+def _payload_source_protocol(repo: Repo) -> Set[str]:
+    """Names of the methods through which a payload source hands out its payload: the methods that only the
+    payload-source protocol of data_io.py has and that are declared to return a Payload (`_get_payload`, `get_payload`)."""
+    own: Set[str] = set()
+    if repo.has_module(DATAIO):
+        io = [c for c in repo.module(DATAIO).tree.body if isinstance(c, ast.ClassDef)]
+        src = [c for c in io if c.name == "PayloadSource"]
+        if src:
+            others = {st.name for c in io if c is not src[0] for st in c.body if isinstance(st, FuncNode)}
+            mine = [st for st in src[0].body if isinstance(st, FuncNode) and not st.name.startswith("__") and st.name not in others]
+            own = {st.name for st in mine if st.returns is not None and (dotted_name(st.returns) or "").split(".")[-1] == "Payload"}
+            if not own:
+                own = {st.name for st in mine if "payload" in st.name and "key" not in st.name}
+    return own or {"_get_payload", "get_payload"}
+
+
+def _rule_payload_source_adapter(repo: Repo, R: Report) -> None:
+    """Interface between the payload-source adapter (io_operation_factory.py) and the declared-key test of
+    DataOperation (D4b): the test can only reject what it is shown.  The adapter has to show it every key of the
+    context the source returned, with that key's value - iterating the *declared* keys instead never offers an
+    undeclared key (the source injects it unnoticed / it is dropped) and invents declared keys the payload lacks."""
+    r = R.rule("C01-D18-payload-source-adapter-offers-every-loaded-key", "the adapter generated for a payload source hands every key of the context the source returned, with the value stored under it, to the operation's declared-key-checked writer (_notify_context_update) on every normally-returning path: the keys offered are the payload's own (loop over <payload>.context items / keys), not a selection by another collection, so an undeclared key raises KeyError at the source node and no key is created that the source did not produce", 1)
+    writers, _deleters = _notifier_names(repo)
+    proto = _payload_source_protocol(repo)
+    mod = repo.module(IOF)
+    seen = 0
+    for f0 in [n for n in ast.walk(mod.tree) if isinstance(n, FuncNode) and enclosing_fn(n) is not None]:
+        if not any(isinstance(c.func, ast.Attribute) and c.func.attr in proto for c in calls_in(f0)):
+            continue
+        if not f0.args.args:
+            continue
+        f = _normal_nested(repo, IOF, f0)
+        recv = f.args.args[0].arg
+        g = CFG(f, may_raise=_no_raise)
+        qn = qualname_of(f0)
+
+        def is_payload(e: ast.AST, use: int) -> bool:
+            v = _val(g, e, use)[0]
+            return isinstance(v, ast.Call) and isinstance(v.func, ast.Attribute) and v.func.attr in proto
+
+        def is_loaded_ctx(e: Optional[ast.AST], use: int) -> bool:
+            if e is None:
+                return False
+            v, u = _val(g, e, use)
+            return isinstance(v, ast.Attribute) and v.attr == "context" and is_payload(v.value, u)
+
+        fetch_nodes = [n.id for n in g.nodes if n.kind == "stmt" and n.ast is not None and any(isinstance(c.func, ast.Attribute) and c.func.attr in proto for c in calls_in(n.ast))]
+        if not fetch_nodes:
+            continue
+        seen += 1
+        # loops over the loaded context: (head, For, key name, is-the-item's-value)
+        loops = []
+        foreign: List[ast.For] = []
+        for n in g.nodes:
+            if n.kind != "for" or not isinstance(n.ast, ast.For):
+                continue
+            it, iu = _val(g, n.ast.iter, n.id)
+            while isinstance(it, ast.Call) and isinstance(it.func, ast.Name) and it.func.id in ("list", "tuple", "iter") and len(it.args) == 1 and not it.keywords:
+                it, iu = _val(g, it.args[0], iu)
+            tgt = n.ast.target
+            hit = False
+            if isinstance(it, ast.Call) and isinstance(it.func, ast.Attribute) and it.func.attr == "items" and not it.args and not it.keywords and is_loaded_ctx(it.func.value, iu):
+                if isinstance(tgt, (ast.Tuple, ast.List)) and len(tgt.elts) == 2 and all(isinstance(e, ast.Name) for e in tgt.elts):
+                    vname = tgt.elts[1].id
+                    loops.append((n.id, n.ast, tgt.elts[0].id, (lambda e, use, vname=vname, head=n.id: isinstance(e, ast.Name) and e.id == vname and {d.id for d in reaching_defs(g, vname, use)} == {head})))
+                    hit = True
+            else:
+                if isinstance(it, ast.Call) and isinstance(it.func, ast.Attribute) and it.func.attr == "keys" and not it.args and not it.keywords:
+                    it = it.func.value
+                if is_loaded_ctx(it, iu) and isinstance(tgt, ast.Name):
+                    kname = tgt.id
+
+                    def looked_up(e: ast.AST, use: int, kname: str = kname) -> bool:
+                        v, u = _val(g, e, use)
+                        if isinstance(v, ast.Call) and isinstance(v.func, ast.Attribute) and v.func.attr == "get_value" and len(v.args) == 1 and not v.keywords:
+                            return is_loaded_ctx(v.func.value, u) and isinstance(v.args[0], ast.Name) and v.args[0].id == kname
+                        return isinstance(v, ast.Subscript) and is_loaded_ctx(v.value, u) and isinstance(v.slice, ast.Name) and v.slice.id == kname
+                    loops.append((n.id, n.ast, kname, looked_up))
+                    hit = True
+            if not hit and any(_self_call(c, recv, writers) for c in calls_in(n.ast)):
+                foreign.append(n.ast)
+        heads = {h for h, _l, _k, _v in loops}
+        offers: Dict[int, int] = {}
+        for h, lp, kname, is_value in loops:
+            for n in g.nodes:
+                if n.kind != "stmt" or n.ast is None or not any(x is lp for x in ancestors(n.ast)):
+                    continue
+                for c in calls_in(n.ast):
+                    if not _self_call(c, recv, writers):
+                        continue
+                    a = _call_args(c, ("key", "value"))
+                    if a and isinstance(a.get("key"), ast.Name) and a["key"].id == kname and {d.id for d in reaching_defs(g, kname, n.id)} == {h} and a.get("value") is not None and is_value(a["value"], n.id):
+                        offers[n.id] = h
+        starts = [t for p in fetch_nodes for t, _lab in g.succ[p] if t not in heads]
+        skipped = g.must_pass(starts, [g.ret_exit], lambda n: n.id in heads) if starts else []
+        dropped = []
+        for h in heads:
+            body_starts = [t for t, lab in g.succ[h] if lab == "T" and t not in offers]
+            dropped += g.must_pass(body_starts, [h, g.ret_exit], lambda n: n.id in offers) if body_starts else []
+        ok = bool(loops) and bool(offers) and not skipped and not dropped and all(any(w == h for w in offers.values()) for h in heads)
+        why = "the context the source returned is not offered key by key to the declared-key-checked writer (no loop over its items, a path around the loop, or an iteration that offers nothing)"
+        line = f0.lineno
+        if foreign:
+            lp = foreign[0]
+            why = f"the keys handed to the declared-key test are those of `{ast.unparse(lp.iter)[:50]}`, not those of the context the source returned: a key the source injects without declaring it is never shown to the test (no KeyError at this node; the key is dropped and later nodes run), and a declared key the payload does not carry is created anyway"
+            line = lp.lineno
+        R.check(ok, r, IOF, qn, "for key, value in <payload>.context.items(): self._notify_context_update(key, value)", why, line, (skipped or dropped)[0][1] if (skipped or dropped) else None)
+    if not seen:
+        raise AnalysisError("io_operation_factory.py: no generated adapter fetches a payload from a payload source (1 confirmed by reading)")
+
+
+def _rule_write_then_delete(repo: Repo, R: Report) -> None:
+    """A generated context processor that both writes a key and deletes a key (rename:) is documented as "writes the
+    new key, then suppresses the original".  The two keys are unconstrained factory arguments: over a key alphabet they
+    coincide (rename:a:a), and then the order of the two effects is the result - written-then-deleted leaves the key
+    absent (a later reader fails with an unresolvable parameter), deleted-then-written leaves it present."""
+    r = R.rule("C01-D19-generated-processors-write-before-they-delete", "in a generated context processor that requests both a write and a deletion (rename:SRC:DST), no deletion can be followed by a write whose key may be the same key (two factory arguments that the factory does not force to differ, or one name): the documented order is write the destination, then suppress the source, and for SRC = DST it decides whether the key exists afterwards - and with it whether a later node's parameter is resolvable", 1)
+    writers, deleters = _notifier_names(repo)
+    mod = repo.module(CFACT)
+    seen = 0
+    for fac in [n for n in mod.tree.body if isinstance(n, FuncNode)]:
+        for f0 in [n for n in ast.walk(fac) if isinstance(n, FuncNode) and n is not fac and n.args.args]:
+            recv0 = f0.args.args[0].arg
+            if not (any(_self_call(c, recv0, writers) for c in calls_in(f0)) and any(_self_call(c, recv0, deleters) for c in calls_in(f0))):
+                continue
+            seen += 1
+            f = _normal_nested(repo, CFACT, f0)
+            recv = f.args.args[0].arg
+            g = CFG(f, may_raise=_no_raise)
+            qn = f"{fac.name}.{f0.name}"
+            fparams = _fn_params(fac)
+            local = _fn_params(f)
+
+            def key_of(c: ast.Call, use: int) -> Optional[ast.AST]:
+                a = _call_args(c, ("key", "value"))
+                return _val(g, a["key"], use)[0] if a and "key" in a else None
+
+            def sites(names: Set[str]) -> List[Tuple[int, ast.Call, Optional[ast.AST]]]:
+                out = []
+                for n in g.nodes:
+                    if n.kind == "stmt" and n.ast is not None:
+                        for c in calls_in(n.ast):
+                            if _self_call(c, recv, names):
+                                out.append((n.id, c, key_of(c, n.id)))
+                return out
+
+            # does the factory refuse equal keys? (every return of the factory lies behind `<a> != <b>`)
+            def forced_apart(a: str, b: str) -> bool:
+                gf = CFG(fac, may_raise=_no_raise)
+
+                def atom(e: ast.AST, use: int) -> Optional[bool]:
+                    if isinstance(e, ast.Compare) and len(e.ops) == 1 and isinstance(e.ops[0], (ast.Eq, ast.NotEq)):
+                        l, rr = _val(gf, e.left, use)[0], _val(gf, e.comparators[0], use)[0]
+                        if isinstance(l, ast.Name) and isinstance(rr, ast.Name) and {l.id, rr.id} == {a, b}:
+                            return isinstance(e.ops[0], ast.NotEq)
+                    return None
+                rets = [n.id for n in gf.nodes if n.kind == "stmt" and isinstance(n.ast, ast.Return)]
+                okf, _p, n_guards = _only_through(gf, atom, rets)
+                return bool(rets) and okf and n_guards > 0
+
+            def may_coincide(k1: Optional[ast.AST], k2: Optional[ast.AST]) -> bool:
+                if k1 is None or k2 is None:
+                    return True
+                if isinstance(k1, ast.Constant) and isinstance(k2, ast.Constant):
+                    return k1.value == k2.value
+                if isinstance(k1, ast.Name) and isinstance(k2, ast.Name) and k1.id != k2.id and {k1.id, k2.id} <= fparams and not ({k1.id, k2.id} & local):
+                    return not forced_apart(k1.id, k2.id)
+                return True
+
+            ws, ds = sites(writers), sites(deleters)
+            bad = None
+            for dn, dc, dk in ds:
+                after = g.reach([t for t, _lab in g.succ[dn]])
+                for wn, wc, wk in ws:
+                    if wn in after and wn != dn and may_coincide(dk, wk) and bad is None:
+                        bad = (dc, wc, dk, wk)
+            what = ""
+            if bad:
+                dc, wc, dk, wk = bad
+                dks, wks = (ast.unparse(dk) if dk is not None else "?"), (ast.unparse(wk) if wk is not None else "?")
+                what = f"`{norm(dc)[:60]}` runs before `{norm(wc)[:60]}`: the documented order is write, then suppress; `{dks}` and `{wks}` are independent arguments of {fac.name}, and when they name the same key (rename:a:a) the key survives the node instead of being removed - a later node that must fail with an unresolvable parameter runs, and the final context keeps a key the documented semantics remove"
+            R.check(bad is None, r, CFACT, qn, "write the destination key, then delete the source key", what, (bad[0].lineno if bad else f0.lineno))
+    if not seen:
+        raise AnalysisError("context_processors/factory.py: no generated processor both writes and deletes a key (1 confirmed by reading: rename:)")
+
+
+# ---------------------------------------------------------------------- D20 (round 6)
+def _reads_input(e: ast.AST, data_p: str, skip: Tuple[ast.AST, ...] = ()) -> bool:
+    """*e* reads the slicer's input collection other than to ask for its class (`type(data)`, `data.__class__`) or to
+    deep-copy it."""
+    par: Dict[int, ast.AST] = {}
+    for n in ast.walk(e):
+        for ch in ast.iter_child_nodes(n):
+            par[id(ch)] = n
+    for x in ast.walk(e):
+        if not (isinstance(x, ast.Name) and x.id == data_p):
+            continue
+        up = par.get(id(x))
+        if isinstance(up, ast.Attribute) and up.attr == "__class__":
+            continue
+        if isinstance(up, ast.Call) and isinstance(up.func, ast.Name) and up.func.id == "type" and len(up.args) == 1:
+            continue
+        if isinstance(up, ast.Call) and (dotted_name(up.func) or "").split(".")[-1] == "deepcopy" and any(a is x for a in up.args):
+            continue  # a deep copy shares nothing with the input
+        cur, inside = x, False
+        while cur is not None:
+            if any(cur is sk for sk in skip):
+                inside = True
+                break
+            cur = par.get(id(cur))
+        if not inside:
+            return True
+    return False
+
+
+def _slicer_result_is_fresh(R: Report, r: str, p: ast.AST, data_p: str, loop: Optional[ast.For], app: Optional[ast.Call], comp: Optional[ast.AST], shape_known: bool = True) -> None:
+    """*shape_known* False: D6 did not recognise the mapping loop (and reported that); only the part that needs no
+    loop shape is decided here - no store / mutating call goes to the input collection or to an object made from it."""
+    qn = qualname_of(p)
+    g = CFG(p, may_raise=_no_raise)
+    why: Optional[str] = None
+    line = p.lineno
+    stored = {x.id for x in walk_no_nested(p) if isinstance(x, ast.Name) and isinstance(x.ctx, ast.Store)}
+    for site, root in mutation_sites(p, stored | {data_p}):
+        use = _node_of(g, site)
+        made_from = None
+        if root == data_p and not (use is not None and reaching_defs(g, data_p, use)):
+            made_from = data_p
+        elif use is not None:
+            for v, _u in _vals(g, ast.Name(id=root, ctx=ast.Load()), use) or []:
+                if (isinstance(v, ast.Name) and v.id == data_p) or (not isinstance(v, ast.Name) and _reads_input(v, data_p)):
+                    made_from = ast.unparse(v)[:50]
+        if made_from is not None:
+            why, line = f"`{norm(stmt_of(site))[:70]}` writes into " + ("the collection the slicer was given" if made_from == data_p else f"`{root}` = `{made_from}`, an object made from the collection the slicer was given (a shallow copy shares its storage)") + ": the input collection is modified - a value an earlier probe stored in the context, or the caller's input, changes under a later node", getattr(site, "lineno", p.lineno)
+            break
+    if why is None and not shape_known:
+        R.ok(r, SLICE, qn, "no store goes to the input collection (mapping loop not recognised: see C01-D6)")
+        return
+    acc_defs: Optional[Set[Tuple[int, int]]] = None
+    if why is None and loop is not None and app is not None:
+        recv = app.func.value if isinstance(app.func, ast.Attribute) else None
+        use = _node_of(g, app)
+        vs = _vals(g, recv, use) if isinstance(recv, ast.Name) and use is not None else None
+        if not vs:
+            why, line = f"the element results are appended to `{ast.unparse(recv)[:40] if recv is not None else '?'}`, which is not a local collection created here", app.lineno
+        else:
+            for v, u in vs:
+                fresh = isinstance(v, (ast.Call, ast.List, ast.ListComp)) and not _reads_input(v, data_p)
+                if isinstance(v, ast.Name) or not fresh:
+                    why, line = f"the element results are collected in `{ast.unparse(v)[:60]}`: " + ("an object made from the input collection (a shallow copy shares the input's storage), so the slicer rewrites the elements of the collection it was given - a value an earlier probe stored in the context, or the caller's input, changes under a later node" if _reads_input(v, data_p) or isinstance(v, ast.Name) else "not a collection created for this call"), getattr(v, "lineno", app.lineno)
+                    break
+            acc_defs = {(id(v), u) for v, u in vs}
+    if why is None:
+        rets = [n for n in g.nodes if n.kind == "stmt" and isinstance(n.ast, ast.Return)]
+        if not rets or g.must_pass([g.entry], [g.ret_exit], lambda n: n.kind == "stmt" and isinstance(n.ast, ast.Return)):
+            why = "a path returns nothing"
+        for rn in rets:
+            if why is not None:
+                break
+            rv = rn.ast.value
+            good = rv is not None
+            if good and comp is not None:
+                exprs = [v for v, _u in (_vals(g, rv, rn.id) or [(rv, rn.id)])]
+                names = [x for e in [rv] + exprs for x in ast.walk(e) if isinstance(x, ast.Name)]
+                holds = any(any(y is comp for y in ast.walk(e)) for e in exprs) or any(any(y is comp for v, _u in (_vals(g, x, rn.id) or []) for y in ast.walk(v)) for x in names)
+                good = holds and not any(_reads_input(e, data_p, skip=(comp,)) for e in exprs)
+            elif good:
+                names = [x for x in ast.walk(rv) if isinstance(x, ast.Name) and isinstance(x.ctx, ast.Load)]
+                holds = any({(id(v), u) for v, u in (_vals(g, x, rn.id) or [])} == acc_defs for x in names)
+                good = holds and not _reads_input(rv, data_p)
+            if not good:
+                why, line = f"`{norm(rn.ast)[:60]}` does not return the collection of the element results", rn.ast.lineno
+    R.check(why is None, r, SLICE, qn, "out = <new collection>; ..; return out", f"a slicer does not hand back a collection of its own with the mapped elements: {why}", line)
